@@ -11,7 +11,7 @@ use crate::{
     errors::{ensure, Result},
     line_writer::LineBreak,
     normalize_lines::normalize_lines,
-    packet::{PacketHeader, PacketTrait},
+    packet::{PacketHeader, PacketTrait, MAX_PARTIAL_LEN},
     parsing_reader::BufReadParsing,
     ser::Serialize,
     types::{PacketHeaderVersion, PacketLength, Tag, Timestamp},
@@ -593,6 +593,11 @@ impl<R: io::Read> LiteralDataPartialGenerator<R> {
         ensure!(
             chunk_size.is_power_of_two(),
             "chunk size must be a power of two"
+        );
+        ensure!(
+            chunk_size <= MAX_PARTIAL_LEN,
+            "chunk size must be at most {}",
+            MAX_PARTIAL_LEN
         );
         Ok(Self {
             header,
